@@ -210,6 +210,46 @@ func init() {
 			{Dir: "root", Name: "ZZ_C16_block", Variant: "tx<=2,steps=3", Tiers: "thorough", Reach: []string{"end"}, Tweak: wireStubs("maxtx", 2, "steps", 3)},
 		},
 	})
+	hdStubs := func(kv ...interface{}) func(c *sym.HarnessCfg, tier string) {
+		return func(c *sym.HarnessCfg, tier string) {
+			c.ModAsCondSub = true
+			c.Stubs = map[string]string{
+				"github.com/gcash/bchd/bchec.S256":                               "zzStubS256",
+				"(*github.com/gcash/bchd/bchec.KoblitzCurve).ScalarBaseMult":     "zzStubSBM",
+				"(*github.com/gcash/bchd/bchec.KoblitzCurve).Add":                "zzStubAdd",
+				"github.com/gcash/bchd/bchec.ParsePubKey":                        "zzStubParsePubKey",
+				"(*github.com/gcash/bchd/bchec.PublicKey).SerializeCompressed":   "zzStubSerCompressed",
+				"(*github.com/gcash/bchd/bchec.PublicKey).SerializeUncompressed": "zzStubSerUncompressed",
+				"(*github.com/gcash/bchd/bchec.PublicKey).SerializeHybrid":       "zzStubSerHybrid",
+				"github.com/gcash/bchutil/base58.Encode":                         "zzStubB58Encode",
+				"github.com/gcash/bchutil/base58.Decode":                         "zzStubB58Decode",
+			}
+			for i := 0; i+1 < len(kv); i += 2 {
+				c.Params[kv[i].(string)] = kv[i+1].(int)
+			}
+		}
+	}
+	reg(&PropSpec{
+		ID: "C04",
+		Harnesses: []HarnessSpec{
+			{Dir: "hdkeychain", Name: "ZZ_C04_child", Reach: []string{"derived", "private-child", "refused-depth", "refused-hardened", "refused-il"}, Tweak: hdStubs()},
+			{Dir: "hdkeychain", Name: "ZZ_C04_master", Reach: []string{"master", "refused"}, Tweak: hdStubs("maxseed", 66)},
+			{Dir: "hdkeychain", Name: "ZZ_C04_serial", Reach: []string{"end"}, Tweak: hdStubs()},
+		},
+	})
+	reg(&PropSpec{
+		ID: "C05",
+		Harnesses: []HarnessSpec{
+			{Dir: "hdkeychain", Name: "ZZ_C05_roundtrip", Reach: []string{"end"}, Tweak: hdStubs()},
+			{Dir: "hdkeychain", Name: "ZZ_C05_strict", Reach: []string{"parsed", "accepted", "rejected"}, Tweak: hdStubs()},
+		},
+	})
+	reg(&PropSpec{
+		ID: "C15",
+		Harnesses: []HarnessSpec{
+			{Dir: "hdkeychain", Name: "ZZ_C15_independent", Reach: []string{"end", "same-key"}, Tweak: hdStubs()},
+		},
+	})
 	meta("C01", []string{
 		"SHA-256 and RIPEMD-160 are uninterpreted functions (same symbol inside the code under test and in the harness reference)",
 		"the CashAddr reference encoder in harness/root/common.go is a correct transcription of the specification",
